@@ -6,9 +6,11 @@ Bug-compatible transcription of the code that exists (line numbers = Simplex.cpp
 stated otherwise).  The parameter layer is modelled minimally: the parameters theta1..theta(n-1)
 are a `List α` (position i = "theta(i+1)") that all carry the same interval constraint,
 `]0,1[` or `[0,1]` (`allowNull`).  What is kept of Parameter / ParameterList:
-  * `Parameter::Parameter(name, value, constraint)` (Parameter.cpp:24-29,55-64): starts from
-    value 0 / precision 0 and calls `setValue`, which tests the constraint only when
-    `|value - 0| > 0`  (so the value 0 is accepted whatever the constraint: `mkParam`);
+  * `Parameter::Parameter(name, value, constraint)` (Parameter.cpp:34-43, after the C01 `fix:`
+    "Parameter constructor checks the initial value against the constraint"): the initial value
+    is stored directly and tested against the constraint whatever it is (`mkParam`; a value 0 or
+    NaN under `]0,1[` raises ConstraintException -- the constructor formerly went through
+    `setValue` from 0 and accepted them);
   * `ParameterList::matchParametersValues` (ParameterList.cpp:414-447): first tests every value
     against the constraint (ConstraintException, nothing changed), then assigns the values that
     differ; `AbstractParametrizable::matchParametersValues` (AbstractParametrizable.h:76-83)
@@ -46,11 +48,9 @@ def vsum (l : List α) : α := l.foldl (· + ·) zero
 def inConstraint (allowNull : Bool) (v : α) : Bool :=
   if allowNull then geb v zero && leb v one else gtb v zero && ltb v one
 
-/-- `new Parameter(name, v, pc)` (Parameter.cpp:24-29 + setValue :55-64); precision is 0 -/
+/-- `new Parameter(name, v, pc)` (Parameter.cpp:34-43); precision is 0 -/
 def mkParam (allowNull : Bool) (v : α) : Except Err α :=
-  if gtb (abs (v - zero)) zero then
-    (if inConstraint allowNull v then .ok v else .error .constraint)
-  else .ok zero
+  if inConstraint allowNull v then .ok v else .error .constraint
 
 /-! ### method 1: global ratio -/
 
